@@ -922,3 +922,50 @@ def c11_corpus(seed, tier, node_paths_by_kind):
                 pre.append({"op": "jump", "g": 1})
             S.case("%s snapshot #%d" % (kind, r), snap_ops(kind, pre, None))
     return S
+
+
+# ---------------------------------------------------------------- C17
+def c17_corpus(seed, tier, walks_by_kind):
+    rng = random.Random(seed * 1000003 + 17)
+    S = Sched()
+    nseeds = 3 if tier == "quick" else 6
+    # fixed seeds (reproducible whatever VERIF_SEED is)
+    fixed = random.Random(17)
+    seeds32 = [[fixed.getrandbits(8) for _ in range(32)] for _ in range(nseeds)] + [[0] * 32, [0xFF] * 32]
+    for kind in ("Hc128Rng", "IsaacRng", "Isaac64Rng", "XorShiftRng"):
+        walks = list(walks_by_kind.get(kind, []))[: (4 if tier == "quick" else 30)]
+        bb = {"Hc128Rng": 64, "IsaacRng": 1024, "Isaac64Rng": 2048}.get(kind)
+        walks += [random_walk(rng, 25, WORDBYTES[kind], bb) for _ in range(3 if tier == "quick" else 20)]
+        for wi, w in enumerate(walks):
+            w = w[:40]
+            ops = []
+            for si, sd in enumerate(seeds32):
+                g = si + 1
+                ops.append({"op": "from_seed", "g": g, "kind": kind, "seed": sd[:SEEDLEN[kind]]})
+                ops.append({"op": "debug", "g": g})
+                for e in w:
+                    ops.append(opj(e, g))
+                    ops.append({"op": "debug", "g": g})
+            S.case("%s debug walk #%d" % (kind, wi), ops, weight=len(ops) * (1 + (bb or 0) // 256))
+    for kind in ("Hc128Core", "IsaacCore", "Isaac64Core"):
+        ops = []
+        for si, sd in enumerate(seeds32):
+            g = si + 1
+            ops += [{"op": "from_seed", "g": g, "kind": kind, "seed": sd}, {"op": "debug", "g": g}, {"op": "generate", "g": g},
+                    {"op": "debug", "g": g}, {"op": "generate", "g": g}, {"op": "debug", "g": g},
+                    {"op": "clone", "g": g, "to": g + 20}, {"op": "debug", "g": g + 20}]
+        S.case("%s debug" % kind, ops)
+    for wi in range(3 if tier == "quick" else 12):
+        w = random_walk(rng, 8, 8)
+        ops = []
+        for si in range(nseeds):
+            g = si + 1
+            sc = jitter_script(random.Random(1000 * wi + si), [("random", 2000)])
+            ops += [{"op": "timer", "t": g, "readings": [u64(x) for x in sc], "cont": CONT}, {"op": "jit_new", "g": g, "t": g},
+                    {"op": "set_rounds", "g": g, "r": 2}, {"op": "debug", "g": g}]
+            for e in w:
+                ops.append(opj(e, g))
+                ops.append({"op": "debug", "g": g})
+            ops += [{"op": "timer_stats", "g": g, "var": True}, {"op": "debug", "g": g}]
+        S.case("JitterRng debug walk #%d" % wi, ops)
+    return S
